@@ -697,8 +697,52 @@ func copyMap(m map[string]any) map[string]any {
 	return o
 }
 
+// replayPlain: a case of the plain-build passes — the scenario free-running with a sleeping slow()
+// against the identity slow(), 10 times. Races are only visible to the -race build: a case recorded by
+// the race-detector pass is re-decided by running the check again; here only its outcomes are compared.
+func replayPlain(repro map[string]any) (string, bool) {
+	mk := func(sleep bool) *value.FunctionGenerator {
+		g := value.New()
+		g.AddStaticFunction("slow", funcGen.Function[value.Value]{
+			Func: func(st funcGen.Stack[value.Value], cs []value.Value) (value.Value, error) {
+				if sleep {
+					time.Sleep(300 * time.Microsecond)
+				}
+				return st.Get(0), nil
+			},
+			Args: 1, IsPure: false,
+		}.SetDescription("x", "identity; really sleeps 300us in the parallel variant"))
+		return g
+	}
+	src, _ := repro["src"].(string)
+	n, _ := repro["n"].(float64)
+	gSeq, gPar := mk(false), mk(true)
+	fs, _, err1 := gSeq.Generate(src, "n")
+	fp, _, err2 := gPar.Generate(src, "n")
+	if err1 != nil || err2 != nil {
+		return fmt.Sprint("scenario does not generate: ", err1, err2), true
+	}
+	want := observe(gSeq, fs, int(n))
+	diff := 0
+	got := ""
+	for rep := 0; rep < 10; rep++ {
+		if g := observe(gPar, fp, int(n)); g != want {
+			diff++
+			got = g
+		}
+	}
+	note := ""
+	if rb, _ := repro["racebuild"].(bool); rb {
+		note = " (recorded by the race-detector pass: data races are re-decided by running the check, this replay compares outcomes only)"
+	}
+	return fmt.Sprintf("sequential: %s; %d of 10 free-running parallel evaluations differ (%s)%s", want, diff, got, note), diff > 0
+}
+
 func replay(repro map[string]any) (string, bool) {
 	log.SetOutput(io.Discard)
+	if p, _ := repro["plain"].(bool); p {
+		return replayPlain(repro)
+	}
 	r := &runner{g: newGen()}
 	sc := scenario{Src: repro["src"].(string), N: int(repro["n"].(float64)), W: int(repro["w"].(float64))}
 	if v, ok := repro["ref"].(string); ok {
